@@ -28,7 +28,7 @@ import MachSysS.gymir_result_pb2 as proto_gymir
 from MachSysS.convert_feems_result_to_proto import FEEMSResultConverter
 
 THEOREMS = ["fields_covered", "readback_scalars", "readback_rest", "readback_nox", "dropped_without_counterpart", "time_base_series",
-            "time_base_scalar", "time_base_input"]
+            "time_base_scalar", "time_base_input", "series_own", "series_legacy_wrong"]
 DEPENDS_ON_MODULES = ["FeemsProofs.C17"]
 FUEL_CONSUMERS = (TypeComponent.GENSET, TypeComponent.FUEL_CELL_SYSTEM, TypeComponent.FUEL_CELL, TypeComponent.COGES,
                   TypeComponent.MAIN_ENGINE, TypeComponent.MAIN_ENGINE_WITH_GEARBOX)
@@ -102,7 +102,7 @@ def check_subsystem(ctx, side, res, msg, plant, case, where, model):
             want_time = np.array(case["epochs"][:n], dtype=float)
         sysobj = plant.electric if side == "electric" else plant.mechanical
         for rec in msg.detailed_result:
-            comp = plant.find(side, rec.component_name, rec.switchboard_id if side == "electric" else rec.shaftline_id)
+            comp = plant.find(side, rec.component_name, rec.switchboard_id if side == "electric" else rec.shaftline_id, rec.component_type)
             if comp is None:
                 ctx.fail("predicate", "detail-record-of-unknown-component", f"{side}: record {rec.component_name} on node {rec.switchboard_id or rec.shaftline_id}", where)
                 continue
